@@ -1,4 +1,4 @@
-\* C12 -- thorough tier: every subset x 7 shapes, single fields x all record lists with sizes 1..18, pairs, 4-field classes x independent shapes; closed
+\* C12 -- thorough tier: 4-field classes: every subset x 7 uniform shapes and x independent shapes; single fields x all record lists with sizes 1..18; pairs (closed); props/c12.py sets EmitOff
 CONSTANTS
   Tables <- DocTables
   Modes <- ModesThorough
@@ -9,6 +9,7 @@ CONSTANTS
 SPECIFICATION Spec
 INVARIANT TypeOK
 INVARIANT DumpTotal
+INVARIANT WidthTable
 INVARIANT DumpExplains
 INVARIANT RecordsRoundTrip
 INVARIANT SubFieldNames
